@@ -573,3 +573,8 @@ def load_corpus(pid):
                 obj['_file'] = fn
                 out.append(obj)
     return out
+
+
+# a non-terminating implementation call must not block the check (see common.limited)
+import common as _common  # noqa: E402
+_common.limit_impl(globals(), ['impl_extract', 'impl_is_html', 'impl_consume_quoted'])
